@@ -65,6 +65,24 @@ EXPTOKEN = re.compile(rb"([0-9]*)(?:\.([0-9]*))?[eE]([+-]?[0-9]+)")
 EXPONENT_RANGE_REPAIRED = False      # set by the probe `exponent-out-of-range` in run()
 
 
+LABEL_CAST_REPAIRED = False          # set by the probe `label-cast` in run() (finding F-C19-13)
+LABTOKEN = re.compile(rb"^[ \t\r\v\f]*([+-]?(?:nan|inf(?:inity)?|(?:[0-9]+\.?[0-9]*|\.[0-9]+)(?:[eE][+-]?[0-9]+)?))", re.I)
+
+
+def label_cast_trigger(data):
+    """finding F-C19-13: libsvm_importer_classification converts the label to int BEFORE any range check; a label that is
+    NaN, infinite or outside the range of int is undefined behaviour there (-fsanitize=float-cast-overflow aborts).
+    True if some line of the file starts with such a label."""
+    for line in data.split(b"\n"):
+        m = LABTOKEN.match(line)
+        if not m: continue
+        try: x = float(m.group(1).decode())
+        except ValueError: continue
+        if x != x or x >= 2147483648.0 or x <= -2147483649.0:
+            return True
+    return False
+
+
 def mode_of(data, float_scalar=False):
     """X: values are compared exactly; S: memory safety + oracle only.
     The model follows boost 1.83's real_impl (uint64 accumulator, pow10 table, every rounding), so any
@@ -560,6 +578,10 @@ def classify(ops, res):
             feat = "other"
     else:
         feat = "F9-fractional-label" if t[1] == "c" and re.search(rb"\d\.\d*[1-9]|\d[ \t]+\d", data) else "other"
+    if res.crash and t[0] in ("svm", "svmf") and t[2] == "c" and \
+            re.search(r"runtime error: \S+ is outside the range of representable values of type 'int'", res.stderr):
+        return f"{t[0]}:F13-label-cast-before-range-check:crash:float-cast-overflow", \
+               f"libsvm classification importer converted an out-of-range label to int (undefined behaviour) on {what_in}"
     if res.crash:
         m = re.search(r"(?:ERROR|SUMMARY): AddressSanitizer: (\S+)|runtime error: ([^\n]*)", res.stderr)
         tag = (m.group(1) or m.group(2)) if m else ("timeout" if "TIMEOUT" in res.stderr else "crash")
@@ -572,10 +594,13 @@ def classify(ops, res):
 
 
 def build(ctx):
-    return ctx.harness("c19", ["c19.cpp"], repo_sources=["src/Data/SparseData.cpp", "src/Data/Csv.cpp"])
+    # -fsanitize=float-cast-overflow is not part of -fsanitize=undefined: the importers convert parsed doubles to int
+    return ctx.harness("c19", ["c19.cpp"], repo_sources=["src/Data/SparseData.cpp", "src/Data/Csv.cpp"],
+                       flags=["-fsanitize=float-cast-overflow"])
 
 
 PROBE_EXPRANGE = "csv1 f64 35 256 X 3120322031652d363135"    # "1 2 1e-615": three values (finding F11)
+PROBE_LABELCAST = "svm d c f64 0 0 X 3165313020313a310a"   # "1e10 1:1\\n" as classification data (finding F-C19-13)
 PROBE_MAXB0 = "csv u f64 F 1 44 35 0 X 312c320a332c340a"      # "1,2\\n3,4\\n" with maximumBatchSize = 0 (finding F10)
 
 
@@ -631,7 +656,10 @@ def run(ctx):
     # probe: maximumBatchSize = 0 (F10).  While the tree divides by zero there, the generated stream keeps maxB >= 1.
     pr = core.run_case(ctx, [exe, tmp], [drv], [PROBE_MAXB0], env=env, cmp=cmp)
     ctx.cov["probe_maxbatch_zero"] = "passes" if pr.ok else "fails"
-    global MAXB_CHOICES, EXPONENT_RANGE_REPAIRED
+    global MAXB_CHOICES, EXPONENT_RANGE_REPAIRED, LABEL_CAST_REPAIRED
+    pl = core.run_case(ctx, [exe, tmp], [drv], [PROBE_LABELCAST], env=env, cmp=cmp)
+    ctx.cov["probe_label_cast"] = "passes" if pl.ok else "fails"
+    LABEL_CAST_REPAIRED = pl.ok
     pe = core.run_case(ctx, [exe, tmp], [drv], [PROBE_EXPRANGE], env=env, cmp=cmp)
     ctx.cov["probe_exponent_out_of_range"] = "passes" if pe.ok else "fails"
     EXPONENT_RANGE_REPAIRED = pe.ok
@@ -641,16 +669,23 @@ def run(ctx):
     ctx.cov["corpus_cases"] = len(corpus)
     core.correspond(ctx, "K-C19[corpus]", corpus, [exe, tmp], [drv], classify, env=env, keep_prefix=0, max_report=8, cmp=cmp)
     cases = []
+    f13_cases = []      # while F-C19-13 is open: files that trigger it abort the harness, so they run one by one in their own group
+    def add_svm(data):
+        op = svm_op(r, data, ctx)
+        if not LABEL_CAST_REPAIRED and op.split()[2] == "c" and label_cast_trigger(data):
+            f13_cases.append([op]); ctx.count("svm_cases_with_label_outside_int_range")
+        else:
+            cases.append([op])
     r = ctx.rng.fork("c19")
     for _ in range(nvalid):
-        cases.append([svm_op(r, gen_svm_file(r, ctx), ctx)])
+        add_svm(gen_svm_file(r, ctx))
     for _ in range(nmut):
         base = gen_svm_file(r)
-        cases.append([svm_op(r, mutate(r, base, ctx), ctx)])
+        add_svm(mutate(r, base, ctx))
     for k in range(nhost):
         data = gen_hostile_svm(r, ctx)
         if k % 3 == 2: data = mutate(r, data, ctx)
-        cases.append([svm_op(r, data, ctx)])
+        add_svm(data)
     for _ in range(nvalid):
         prm = csv_params(r)
         cases.append([csv_op(prm, avoid_f11(ctx, lambda: gen_csv_file(r, prm[0], prm[2], prm[3], prm[4], ctx, comment=prm[6])), ctx)])
@@ -676,7 +711,9 @@ def run(ctx):
     for _ in range(nexp):
         cases.append([gen_xcsv(r, ctx)])
         cases.append([gen_xsvm(r, ctx)])
-    ctx.cov["evaluations"] = len(cases) + len(corpus)
+    ctx.cov["evaluations"] = len(cases) + len(corpus) + len(f13_cases)
+    if f13_cases:
+        core.correspond(ctx, "K-C19[label-outside-int-range]", f13_cases, [exe, tmp], [drv], classify, env=env, keep_prefix=0, max_report=8, cmp=cmp)
     def nontrivial(op):
         t = op.split()
         if t[0] in ("xcsv", "xsvm"): return int(t[9]) >= 2
